@@ -66,7 +66,9 @@ def roles(facts):
         raise KeyError("GracefulShutdown::new wiring of the two close() pairs not recognised: %s" % pair)
     r.update(pair)
     dc = field_where(facts, GD, lambda t: "ConnectionDriver<" in t)
-    ds = field_where(facts, GD, lambda t: "CloseFuture" in t or "Fuse<" in t)    # Fuse<CloseFuture>, Option<CloseFuture>, ...
+    # Fuse<CloseFuture>, Option<CloseFuture>, ... - or the receiver kept un-converted (Option<CloseReciever>, CloseReciever): the
+    # role is still "the connection's view of the shutdown signal"; whether it is *polled* (waker registered) is decided below
+    ds = field_where(facts, GD, lambda t: "CloseFuture" in t or "Fuse<" in t or "CloseReciever" in t)
     df = field_where(facts, GD, lambda t: t.endswith("CloseSender"))
     if len(dc) != 1 or len(ds) != 1 or len(df) != 1:
         raise KeyError("GracefulConnectionDriver fields by type: conn=%s shutdown=%s finished=%s" % (dc, ds, df))
@@ -204,6 +206,28 @@ def C07_4(ctx, facts):
                   "the shutdown future (type %s) can be polled again after it was Ready" % sty, f.where())
     else:
         ctx.bad("GracefulConnectionDriver|fused", "the shutdown future (type %s) is neither fused nor kept in an Option emptied on completion: it can be polled after it was Ready" % sty)
+    # a resting connection hears the signal: every Pending answer of the driver is chosen behind the Pending edge of a poll of the
+    # *shutdown* future that received the task context (the connection's own waker is not enough - an idle keep-alive connection
+    # is woken by nothing but the signal).  Exempt: a Pending chosen after graceful_shutdown() was already requested on the path.
+    gs0 = {c.bb for c in f.calls() if norm(c.decl or c.name).endswith("::graceful_shutdown")}
+    cxl = pool2.cx_local(f)
+    shp_cx = {c.bb for c in shp if cxl is not None and any(any(r.kind == "arg" and getattr(r, "index", None) == cxl for r in f.roots(a, through_calls=False)) for a in c.args)}
+    pend_edge = L_poll(f, False, shp_cx)
+    npend = 0
+    for (b, i, s_) in f.aggregates("Poll", "Pending"):
+        npend += 1
+        ok, w = False, None
+        for (cb, cl) in pool2.carriers(f, b, s_["p"]["l"]):
+            ok2, w2 = f.guarded(cb, pend_edge) if shp_cx else (False, None)
+            if not ok2 and gs0:
+                ok2 = f.must_pass(f.entry if hasattr(f, "entry") else 0, [cb], gs0)[0]
+            ok = ok or ok2
+            w = w or w2
+        ctx.check(ok, "GracefulConnectionDriver::poll|pending-hears-signal",
+                  "the driver answers Pending only behind the Pending edge of a poll of its shutdown future that received the task context (the signal wakes a resting connection)",
+                  "the driver can answer Pending without the shutdown signal having registered the task's waker: an idle connection is never told to shut down",
+                  f.where(b), f.path_desc(w))
+    ctx.floor("GracefulConnectionDriver::poll|pending-sites", npend, 1, "Poll::Pending constructions in the driver's poll")
     gs = [c for c in f.calls() if norm(c.decl or c.name).endswith("::graceful_shutdown")]
     fin = [c for c in f.calls("server::CloseSender::send")]
     ctx.floor("GracefulConnectionDriver::poll|conn-poll", len(cp), 1, "polls of the connection")
